@@ -14,7 +14,9 @@ LEVEL = 'exploration'
 RULE = ('cases = real apply_matcher executions on seeded random (tables, candidate set, similarity '
         'function, operator, threshold, projection) drawn so that thresholds hit attained scores, '
         'both sides of the token-cache switch occur, candidate sets are subsets/permutations/with '
-        'repeats, with extra columns, arbitrary index and non-serial _id; each case is also re-run '
+        'repeats and repeated ids, with extra columns, arbitrary index and non-serial _id; similarity '
+        'functions incl. signed, NaN-returning and slow user functions, and numeric / datetime match '
+        'attributes with tokenizer None; each case is also re-run '
         'with padded tables (cache off), with other n_jobs and (sampled) under loky. Non-trivial = '
         'the candidate set has at least one row with two present values; distinct = case seed.')
 ASSUMPTIONS = ['py_stringmatching similarity functions and tokenizers are trusted',
